@@ -64,6 +64,7 @@ static struct cam_ghost
     int published_bad;
     int n_bin2;
     int streamer_unit;
+    int waits_this_loop;
 } cg;
 
 enum
@@ -250,6 +251,7 @@ clock_tic(struct clock* c)
          * wait; the caller of stop may clear is_running at any time, and does so at the
          * latest after STREAMER_MAX_ITER iterations (bounded stand-in) */
         cg.iterations++;
+        cg.waits_this_loop = 0;
         if (cg.iterations >= STREAMER_MAX_ITER || nd_bool())
             g_cam->streamer.is_running = 0;
         if (nd_bool())
@@ -281,12 +283,9 @@ env_step_frame_wait(void)
     g_cam->streamer.is_running = nd_bool();
     g_cam->hardware_timestamp = nd_ulong();
     g_cam->im.frame_wanted = nd_uchar();
-    /* the streamer swaps the two buffers when it publishes */
-    if (nd_bool()) {
-        void* t = g_cam->im.frame_data;
-        g_cam->im.frame_data = g_cam->im.render_data;
-        g_cam->im.render_data = t;
-    }
+    /* (the streamer also swaps frame_data/render_data when it publishes; the two buffers
+     * have the same capacity and a havocked pointer field makes CBMC's memcpy model
+     * intractable, so the swap is not replayed here - stated in the unit's doc) */
 }
 
 /* streamer sleeping on the trigger: `triggered` goes 0->1 only together with a fired
@@ -296,10 +295,13 @@ env_step_trigger_wait(void)
 {
     if (cg.waits_trigger < 3)
         cg.waits_trigger++;
-    if (nd_bool()) {
+    cg.waits_this_loop++;
+    /* bounded stand-in: at most 3 spurious wake-ups before a trigger arrives */
+    if (cg.waits_this_loop >= 3 || nd_bool()) {
+        if (!g_cam->software_trigger.triggered)
+            cg.triggers_fired++; /* a trigger that finds the flag already set is merged */
         g_cam->software_trigger.triggered = 1;
         g_cam->im.frame_wanted = 1;
-        cg.triggers_fired++;
     }
     if (nd_bool())
         g_cam->streamer.is_running = 0;
